@@ -411,7 +411,7 @@ PROPS = {
     },
     "C19": {
         "level": "proof",
-        "verus": [("columns", None), ("alignment", None), ("postingfmt", ["Display for Posting", "print_clear_state"])],
+        "verus": [("columns", None), ("alignment", None), ("postingfmt", ["Display for Posting", "print_clear_state", "callsite:FormatOptions::format.entry_separator"])],
         "kani": {"quick": ["get_column_complete"], "thorough": []},
         "family": ("c19", {"quick": ["quick"], "thorough": ["thorough"]}),
         "explanation": "Verus proves the column arithmetic of formatted postings on get_column, Alignment::{absolute,plus} and on the two get_column call expressions sliced out of Display for Posting: "
@@ -419,13 +419,13 @@ PROPS = {
                        "of posting and metadata lines are exactly four spaces.  Group `alignment` (structural induction over every expression tree): the three fmt_with_alignment impls (ValueExpr, Expr, Amount) append exactly "
                        "the expression's text to the sink - `(`..`)`, the operator between single spaces, the number, one space, the commodity - and return, as Complete(k), the byte offset k of the END OF THE NUMERIC PART "
                        "of the first amount that carries a commodity, or Partial(length of the whole text) when no amount carries one; that offset lies inside the printed text (lemma); the Display impls of UnaryOp / BinaryOp "
-                       "print exactly one ASCII character (the alignment arithmetic counts 1 and 3 for them); WithContext::pass_context keeps the context; the blanket `impl Display for WithContext<T> where Self: DisplayWithAlignment` prints exactly the text fmt_with_alignment appends.  Group `postingfmt`: the WHOLE `Display for WithContext<Posting>` (write! pieces by rule R50, the GAT-decorated syntax types replaced by stand-ins with exactly the fields read): the sink receives, in this order, four spaces, the clear mark, the account; for an amount: `{:>w$}` of the empty string with w = get_column(48, account columns + offset of the number's end, 2), the amount expression, the lot part, ` @ ` / ` @@ ` and the cost; for an assertion: ` =` right-aligned in get_column(50 + trailing, account columns, 3) (0 after an amount), one space, the assertion expression; a line end; and per metadata one line `    ; ..`.  Theorems over that proven line (proof functions): the padding before an amount is >= 2 spaces; for a short account 4 + account columns + padding + offset of the number's end = 52; an assertion-only posting's ` =` is padded to >= 3 and its `=` falls in column 52 + trailing + 2; after an amount the assertion follows directly.",
+                       "print exactly one ASCII character (the alignment arithmetic counts 1 and 3 for them); WithContext::pass_context keeps the context; the blanket `impl Display for WithContext<T> where Self: DisplayWithAlignment` prints exactly the text fmt_with_alignment appends.  Group `postingfmt`: the WHOLE `Display for WithContext<Posting>` (write! pieces by rule R50, the GAT-decorated syntax types replaced by stand-ins with exactly the fields read): the sink receives, in this order, four spaces, the clear mark, the account; for an amount: `{:>w$}` of the empty string with w = get_column(48, account columns + offset of the number's end, 2), the amount expression, the lot part, ` @ ` / ` @@ ` and the cost; for an assertion: ` =` right-aligned in get_column(50 + trailing, account columns, 3) (0 after an amount), one space, the assertion expression; a line end; and per metadata one line `    ; ..`.  Theorems over that proven line (proof functions): the padding before an amount is >= 2 spaces; for a short account 4 + account columns + padding + offset of the number's end = 52; an assertion-only posting's ` =` is padded to >= 3 and its `=` falls in column 52 + trailing + 2; after an amount the assertion follows directly; every posting block ends with a line end.  FormatOptions::format (core/src/format.rs) writes exactly one more line end after every entry's own text (statement slice `format.one_line_end_after_every_entry`): entries are separated by exactly one blank line.",
         "units_doc": ["core/src/syntax/display.rs: get_column, Alignment::{absolute,plus}, call-site slices get_column(48, ..) / get_column(50 + trailing, ..), format-string literal slices",
                       "core/src/syntax/display.rs: DisplayWithAlignment for WithContext<ValueExpr> / <Expr> / <Amount> (whole functions), WithContext::pass_context", "core/src/syntax/expr.rs: Display for UnaryOp, Display for BinaryOp", "core/src/syntax/display.rs: Display for WithContext<Posting> (whole function), print_clear_state; theorems theorem_amount_number_ends_at_column_52, theorem_amount_padding_is_spaces, theorem_assertion_only_aligned, theorem_assertion_after_amount"],
         "assumptions": ["ASSUMED model of core::fmt (vx/prelude/fmt_model.rs): write!(f, ..) sends the pieces of its format string to the sink in order and stops at the first error (rule R50); `{}` appends the argument's Display text; x.to_string() is that text; "
                         "str::len counts UTF-8 bytes (utf8_len is the definition of the encoding)", "ASSUMED: display::rescale is a function of (amount, context) (its contract is proved in group `rescale`); the text Display for PrettyDecimal prints is uninterpreted here (family c07)",
                         "the printed text of one expression has at most usize::MAX bytes (requires of fmt_with_alignment)", "{:>width$} (put_padded_right: pads with spaces to `width` characters, never truncates) and unicode-width (uninterpreted width_cjk_spec / width_spec) are ASSUMED models", "requires of Display for Posting (posting_fits): account columns and expression texts below 2^30", "ASSUMED axioms (vx/prelude/alignment_width.rs): unicode-width is additive over concatenation and gives one column per printable ASCII character; Display for PrettyDecimal prints printable ASCII only (family c07).  From these it is PROVED (structural induction, lemma_expr_shape / lemma_abs_le_width) that everything printed before the end of the first commodity-bearing number is printable ASCII, so that the reported offset (bytes) equals display columns and never exceeds the display width of the text: the subtraction width_cjk(balance_str) - alignment cannot underflow", "stand-ins for Posting / PostingAmount / Lot / Exchange / Metadata / the Decorated wrapper (vx/prelude/posting_fmt_stub.rs): exactly the fields the function reads; the text of the lot part and of a metadata item is uninterpreted", "that bytes = display columns for the printed number prefix (ASCII) when reading the theorems as statements about columns"],
-        "not_decided": ["that the number PrettyDecimal prints is ASCII (so that bytes = display columns; family c07 / c19)", "unicode width itself; Display for Lot / Metadata / Transaction; entry separation in format.rs (family c19)"],
+        "not_decided": ["that the number PrettyDecimal prints is ASCII (so that bytes = display columns; family c07 / c19)", "unicode width itself; Display for Lot / Metadata / Transaction header (family c19); that entries other than transactions end their text with a line end (family c19 / c05)"],
     },
 }
 
